@@ -2,6 +2,7 @@
    libxslt are oracles; see notes/C10.md).
    Models: Model/ReplyView.v, Model/NsStrip.v.  Spec: Spec/ReplySpec.v. *)
 From NC Require Import Model.Base Model.XTree Model.XmlHelpers Model.NsStrip Model.ReplyView Spec.ReplySpec Proofs.ReplyProofs.
+From NC Require Import Model.ReplyLife Spec.ReplyLifeSpec Proofs.ReplyLifeProofs.
 
 (* The object handed to the caller (RPCReply, or the NCElement's reply) carries exactly the
    delivered text, and was parsed with the call's huge_tree flag - for every parser behaviour. *)
@@ -79,6 +80,57 @@ Theorem C10_huge_success : forall P Q Q2 p cls mgr forced rk raw,
 Proof. exact c10_huge_success. Qed.
 Print Assumptions C10_huge_success.
 
+(* ---------------- histories: the RPC object between request() and the delivery of its reply ----------------
+   One Manager, any number of requests in flight (synchronous, waiting for another thread to deliver, or
+   asynchronous), the Manager's settings changed in between, replies arriving in any order, stray messages
+   repeating an id: the reply object of the call (id, cls, forced) is built from exactly the message that
+   carried its id, with the class of its operation, and with the flag the call was made with (the Manager's
+   flag when the call was made, or forced by the operation) - last overwritten only by the caller's own
+   writes to rpc.huge_tree before the delivery. *)
+Theorem C10_life_reply : forall w pre id cls forced mid raw post,
+  none_of (calls id) (mid ++ post) -> none_of (delivers id) mid ->
+  reply_of id (run_hist w (pre ++ ECall id cls forced :: mid ++ EDeliver id raw :: post)) =
+  Some (mkReply cls raw (rpc_huge_after id (call_flag (mgr_huge_after (w_huge w) pre) forced) mid)).
+Proof. exact c10_life_reply. Qed.
+Print Assumptions C10_life_reply.
+
+(* ... so, when the caller does not touch the object, whatever else happens on the Manager and the session *)
+Theorem C10_life_flag : forall w pre id cls forced mid raw post r,
+  none_of (calls id) (mid ++ post) -> none_of (delivers id) mid -> none_of (sets id) mid ->
+  reply_of id (run_hist w (pre ++ ECall id cls forced :: mid ++ EDeliver id raw :: post)) = Some r ->
+  reply_xml r = raw /\ r_cls r = cls /\ r_huge r = call_flag (mgr_huge_after (w_huge w) pre) forced.
+Proof. exact c10_life_flag. Qed.
+Print Assumptions C10_life_flag.
+
+(* the synchronous call of C10_raw / C10_huge_plumbing / C10_huge_success is the history in which the caller
+   waits: whatever the other threads do between its send and its delivery, it returns what `request` returns
+   for the Manager's flag at the time of the call *)
+Theorem C10_life_sync : forall P Q Q2 p rk w pre id cls forced mid raw,
+  none_of (calls id) mid -> none_of (delivers id) mid -> none_of (sets id) mid ->
+  finish P Q Q2 p rk id (run_hist w (pre ++ ECall id cls forced :: mid ++ [EDeliver id raw])) =
+  Some (request P Q Q2 p cls (mgr_huge_after (w_huge w) pre) forced rk raw).
+Proof. exact c10_life_sync. Qed.
+Print Assumptions C10_life_sync.
+
+(* the asynchronous caller reading rpc.reply at any later time: the text, the class, every parse site on the
+   call's flag, and no parse error when the flag is on and the huge parser accepts the message *)
+Theorem C10_life_async : forall P p w pre id cls forced mid raw post,
+  none_of (calls id) (mid ++ post) -> none_of (delivers id) mid -> none_of (sets id) mid ->
+  let f := call_flag (mgr_huge_after (w_huge w) pre) forced in
+  exists r, reply_of id (run_hist w (pre ++ ECall id cls forced :: mid ++ EDeliver id raw :: post)) = Some r /\
+            reply_xml r = raw /\ r_cls r = cls /\
+            (forall s fl, In (s, fl) (snd (async_read P p r)) -> fl = f) /\
+            (f = true -> P true raw <> None -> fst (async_read P p r) <> OParseError).
+Proof. exact c10_life_async. Qed.
+Print Assumptions C10_life_async.
+
+(* what the asynchronous caller sees is the parse of that text and the data view of C10_data / C10_schema_data *)
+Theorem C10_async_view : forall P p r r' root d,
+  fst (async_read P p r) = OReply r' root d ->
+  r' = r /\ P (r_huge r) (r_raw r) = Some root /\ d = hook p (r_cls r) root /\ d <> DAttrErr.
+Proof. exact c10_async_view. Qed.
+Print Assumptions C10_async_view.
+
 (* ---------------- non-vacuity ---------------- *)
 Definition nm (u l : bytes) : name := (Some u, l).
 Definition ex_data : xnode :=
@@ -115,3 +167,37 @@ Example C10_ex_parser_limits :
   fst (request P P (fun _ x => Some x) PJunos ClsGet true false RNone []) <> OParseError /\
   fst (request P P (fun _ x => Some x) PJunos ClsGet false false RNone []) = OParseError.
 Proof. vm_compute. split; [discriminate|reflexivity]. Qed.
+
+(* an asynchronous get-schema (forced flag) on a Manager with huge_tree off, a get issued and answered, the
+   Manager's flag switched on, a stray second message for the first id: each object keeps its own message,
+   class and flag; a parser that needs the flag accepts the schema and would reject it without the flag *)
+Definition ex_hist : list event :=
+  [ESetMgrAsync true; ECall 7 ClsSchema true; ECall 8 ClsGet false; EDeliver 8 [2]; ESetMgrHuge true;
+   ECall 9 ClsGet false; EDeliver 7 [1]; EDeliver 9 [3]; EDeliver 7 [4]].
+Example C10_ex_life :
+  let w := run_hist (world0 false false) ex_hist in
+  reply_of 7 w = Some (mkReply ClsSchema [1] true) /\ reply_of 8 w = Some (mkReply ClsGet [2] false) /\
+  reply_of 9 w = Some (mkReply ClsGet [3] true) /\
+  (let P := fun (h : bool) (_ : bytes) => if h then Some ex_reply else None in
+   fst (async_read P PDefault (mkReply ClsSchema [1] true)) <> OParseError /\
+   fst (async_read P PDefault (mkReply ClsSchema [1] false)) = OParseError).
+Proof. vm_compute. repeat split; try reflexivity; discriminate. Qed.
+
+Example C10_ex_life_hyps :
+  (* the hypotheses of C10_life_flag on that history, for the get-schema call *)
+  ex_hist = [ESetMgrAsync true] ++ ECall 7 ClsSchema true :: [ECall 8 ClsGet false; EDeliver 8 [2]; ESetMgrHuge true; ECall 9 ClsGet false]
+            ++ EDeliver 7 [1] :: [EDeliver 9 [3]; EDeliver 7 [4]] /\
+  none_of (calls 7) ([ECall 8 ClsGet false; EDeliver 8 [2]; ESetMgrHuge true; ECall 9 ClsGet false] ++ [EDeliver 9 [3]; EDeliver 7 [4]]) /\
+  none_of (delivers 7) [ECall 8 ClsGet false; EDeliver 8 [2]; ESetMgrHuge true; ECall 9 ClsGet false] /\
+  none_of (sets 7) [ECall 8 ClsGet false; EDeliver 8 [2]; ESetMgrHuge true; ECall 9 ClsGet false].
+Proof.
+  split; [reflexivity|]. repeat split; intros e H; cbn [In app] in H;
+    repeat (destruct H as [<-|H]; [reflexivity|]); destruct H.
+Qed.
+
+Example C10_ex_life_sync :
+  (* a synchronous Junos get whose reply is delivered after another call's: sites as in C10_ex_plumbing *)
+  option_map snd (finish (fun _ _ => Some ex_reply) (fun _ _ => Some ex_reply) (fun _ x => Some x) PJunos RNone 8
+                         (run_hist (world0 true false) [ECall 7 ClsSchema true; ECall 8 ClsGet false; EDeliver 7 [1]; EDeliver 8 [2]]))
+  = Some [(SReplyParse, true); (SXsltSheet, true); (SXsltInput, true); (SXsltOutput, true)].
+Proof. vm_compute. reflexivity. Qed.
